@@ -829,3 +829,37 @@ def filtered(mod, drop_methods=(), drop_types=(), method_pred=None, suffix=""):
             continue
         out.methods.append(m)
     return out
+
+
+def m0_js():
+    """Struct shapes for the JS back end (C08): padding patterns, nested structs (incl. single-field
+    'newtype' structs at non-zero offsets, 2-scalar structs inside 3-scalar structs), enums, pointer-sized
+    integers, optional fields.  Every struct is taken and returned by value."""
+    m = Module("m0_js")
+    P = Prim
+    m.add(EnumDef("Je", [("A", -3), ("B", 5), ("C", 1000000)]))
+    m.add(StructDef("JPad", [("a", P("u8")), ("b", P("u64")), ("c", P("i16")), ("d", P("u32")), ("e", P("bool"))]))
+    m.add(StructDef("JRev", [("e", P("bool")), ("d", P("u32")), ("c", P("i16")), ("b", P("u64")), ("a", P("u8"))]))
+    m.add(StructDef("JMixed", [("f", P("f32")), ("en", EnumT("Je")), ("g", P("f64")), ("ch", P("DiplomatChar")), ("by", P("DiplomatByte")),
+                               ("sz", P("usize")), ("isz", P("isize")), ("h", P("i8")), ("w", P("u16")), ("l", P("i64"))]))
+    m.add(StructDef("JInner", [("x", P("i8")), ("y", P("i32"))]))
+    m.add(StructDef("JOuter", [("p", P("u8")), ("inner", StructT("JInner")), ("q", P("u16")), ("s", EnumT("Je"))]))
+    m.add(StructDef("JPair", [("first", P("u8")), ("second", P("u32"))]))
+    m.add(StructDef("JTriple", [("pair", StructT("JPair")), ("third", P("u8"))]))
+    m.add(StructDef("JTripleRev", [("third", P("u8")), ("pair", StructT("JPair"))]))
+    m.add(StructDef("JCelsius", [("t", P("i16"))]))
+    m.add(StructDef("JMeters", [("m", P("f64"))]))
+    m.add(StructDef("JReading", [("id", P("u32")), ("temp", StructT("JCelsius")), ("height", StructT("JMeters"))]))
+    m.add(StructDef("JQuad", [("a", P("u8")), ("b", P("u16")), ("c", P("u32")), ("d", P("u64"))]))
+    m.add(StructDef("JTwo", [("a", P("u8")), ("b", P("u64"))]))
+    m.add(StructDef("JBig", [("a", P("u8")), ("b", P("u16")), ("c", P("u64"))]))
+    m.add(StructDef("JDeep", [("x", P("u8")), ("o", StructT("JOuter")), ("y", P("u16"))]))
+    m.add(StructDef("JShortPair", [("a", P("u16")), ("b", P("u8"))]))
+    m.add(StructDef("JAfterShort", [("sp", StructT("JShortPair")), ("z", P("u64"))]))
+    m.add(StructDef("JOpt", [("a", Opt(P("u8"), "diplomat")), ("b", Opt(P("i64"), "diplomat")), ("c", Opt(EnumT("Je"), "diplomat")),
+                             ("d", Opt(StructT("JInner"), "diplomat")), ("e", P("u8"))]))
+    m.add(OpaqueDef("Js"))
+    for sd in list(m.structs.values()):
+        m.method("Js", "rt_%s" % sd.name.lower(), None, [("s", StructT(sd.name))], StructT(sd.name))
+    m.method("Js", "new", None, [], OpaqueBox("Js"))
+    return m
